@@ -239,4 +239,13 @@ def ext_models(u, slots=4, skip=()):
     return t
 
 
+def pooled_type_and_forall(cps):
+    """C statements that take a `const Type&` and a `const Forall&` operand (named v_t, v_q) from ONE array, so that their address order --
+    what the scope's tables compare -- folds to a constant (tree shapes under arbitrary orders are C08's business); None if not applicable"""
+    d = {pn: ct for ct, pn in cps}
+    if 'v_t' in d and 'v_q' in d and 'Forall' in d['v_q']:
+        return ('  static %s fpool[2];\n  %s v_q = &fpool[0]; %s v_t = (%s)&fpool[1];      /* a Forall is a Type (first-base chain) */\n' % (d['v_q'][:-1].strip(), d['v_q'], d['v_t'], d['v_t']), ('v_t', 'v_q'))
+    return None
+
+
 PRELUDE_C = '#include "flmodel.h"\n#include "seqmodel.h"\nstatic void* zalloc(unsigned long n) { return __CPROVER_allocate(n, 1); }   /* fresh zero-initialised object (byte-wise memset of a whole Lexicon costs cbmc minutes) */\n#define NEWZ(T) ((T*)zalloc(sizeof(T)))\n'
